@@ -125,6 +125,23 @@ func VerifC03_GetHead() {
 	if genuine {
 		verif_Assert(gerr == nil, "what the expected publisher signed for its root verifies")
 	}
+	// whatever was answered and rejected before, in this client or process, the
+	// publisher's genuine head verifies afterwards (publisher and client both sign /
+	// validate through the same code)
+	genuineWire, gwerr := h1.Encode()
+	verif_Assume(gwerr == nil)
+	wire = genuineWire
+	c3, e3 := s.GetHead(context.Background())
+	verif_Assert(e3 == nil && c3 == c1, "after any earlier answer the expected publisher's genuine head is accepted")
+	h3, serr := headschema.NewSignedHead(c2, t1, k1.priv)
+	verif_Assert(serr == nil && h3 != nil, "and the publisher can sign its next head")
+	if h3 != nil {
+		w3, w3err := h3.Encode()
+		verif_Assume(w3err == nil)
+		wire = w3
+		c4, e4 := s.GetHead(context.Background())
+		verif_Assert(e4 == nil && c4 == c2, "which verifies in turn")
+	}
 }
 
 // C03: what a publisher serves for its root verifies (sign/validate agree on
